@@ -324,6 +324,10 @@ func (h *c18m) exec(line string) string {
 				}
 			}
 			app.LockupKeeper.InitGenesis(c1, lockuptypes.GenesisState{LastLockId: last, Locks: ls})
+			if digestOut != nil {
+				// C12: the lockup store of the branch (accumulation store written by InitializeAllLocks)
+				fmt.Fprintf(digestOut, "locks %s\n", h.f.StoreDigestAt(c1, lockuptypes.StoreKey))
+			}
 			exp := app.LockupKeeper.ExportGenesis(c1)
 			var order []uint64
 			for _, l := range exp.Locks {
